@@ -309,9 +309,16 @@ class AllPerms(Facet):
     shards = {"quick": 16, "thorough": 16}
 
     def enumerate(self, tier):
-        nd = 3 if tier == "quick" else 4
+        if tier == "quick":
+            yield from self._enum(3, [2], None)
+            # slicing depends on where the sliced axes sit: all 24 storage orders of a 4-dim array for the slice templates
+            yield from self._enum(4, [2], ("getslice", "setslice"))
+        else:
+            yield from self._enum(4, [2, 3], None)
+
+    def _enum(self, nd, lens, only_kinds):
         letters = list("abcd"[:nd])
-        for L in ([2] if tier == "quick" else [2, 3]):
+        for L in lens:
             U = {"dims": [{"letter": l, "name": gen.NAMES[l], "items": gen.items_for(l, k, L, "str"), "dtype": "str"} for k, l in enumerate(letters)]}
             X = {"letters": letters, "mode": "coded", "tag": "x"}
             Y3 = {"letters": letters[:-1], "mode": "coded", "tag": "y"}
@@ -336,7 +343,17 @@ class AllPerms(Facet):
                 {"kind": "split", "dims": [letters[1]], "arrays": {"x": X}},
                 {"kind": "stack", "arrays": {"x": Y3}},
             ]
-            for op in templates:
+            extra = []
+            if nd == 4:
+                # (kept, list/subset, kept, single) and (single, kept, kept, subset)
+                extra = [
+                    {"kind": "getslice", "sel": {letters[1]: sub(letters[1]), letters[3]: one(letters[3])}, "syntax": "dict_letter", "arrays": {"x": X}},
+                    {"kind": "setslice", "sel": {letters[1]: {"kind": "list", "items": list(reversed(build.udim(U, letters[1])["items"]))}, letters[3]: one(letters[3])}, "syntax": "dict_letter", "arrays": {"t": X}, "num": 2.5},
+                    {"kind": "setslice", "sel": {letters[1]: sub(letters[1]), letters[3]: one(letters[3])}, "syntax": "dict_letter", "arrays": {"t": X, "y": {"letters": [letters[2], "B", letters[0]], "mode": "coded", "tag": "y"}}},
+                ]
+            for op in templates + extra:
+                if only_kinds and op["kind"] not in only_kinds:
+                    continue
                 roles = list(op["arrays"])
                 spaces = [list(itertools.permutations(op["arrays"][r]["letters"])) for r in roles]
                 for combo in itertools.product(*spaces):
